@@ -132,6 +132,25 @@ pub fn run(out: &mut Out, seed: u64, tier: &str) {
             }
         }
     }
+    // what the changed source lines mention: pairs of atoms that far apart (and a hair either side), crowded clusters of that many atoms
+    let h = hints();
+    for mag in h.magnitudes().into_iter().filter(|m| *m < 1e6).take(9) {
+        for (zi, zj) in [(1usize, 1usize), (6, 1), (6, 6), (8, 1), (17, 17), (26, 8)] {
+            for f in [1.0 - 1e-9, 1.0, 1.0 + 1e-9, 0.5, 2.0] {
+                for off in [0.0f64, 1000.0] {
+                    let d = mag * f;
+                    one(out, &Mol { name: format!("hinted-distance-{:e}", d), zs: vec![zi, zj], xs: vec![[off, off, off], [off + d * 0.6, off + d * 0.8, off]] }, &mut stats);
+                    one(out, &Mol { name: format!("hinted-distance-{:e}-axis", d), zs: vec![zi, zj, 1], xs: vec![[off, off, off], [off, off + d, off], [off - 0.9, off, off]] }, &mut stats);
+                }
+            }
+        }
+    }
+    for n in h.atom_counts(8, 400).into_iter().take(4) {
+        let zs: Vec<usize> = (0..n).map(|_| *rng.pick(&[1usize, 6, 7, 8, 9, 17])).collect();
+        let side = (n as f64).cbrt() * 1.1;
+        let xs = (0..n).map(|_| [rng.range(0.0, side), rng.range(0.0, side), rng.range(0.0, side)]).collect();
+        one(out, &Mol { name: format!("hinted-cluster-{}", n), zs, xs }, &mut stats);
+    }
     out.stat("molecules", stats.0);
     out.stat("with_bonds", stats.1);
     out.stat("with_a_candidate_pair_left_unbonded", stats.2);
